@@ -289,6 +289,8 @@ class Lexer(object):
 
             if char != '/' or (char == '/' and next_char in ('/', '*')):
                 tok = self._get_update_token()
+                if tok is None:
+                    return tok
                 if tok.type in DIVISION_SYNTAX_MARKERS:
                     if tok.type in COMMENTS:
                         if self.yield_comments:
